@@ -30,7 +30,7 @@ _CHECK = None
 class Config:
     def __init__(self, name, fn, params=None, split=None, witness_every=0, max_paths=None,
                  prove_timeout_ms=120000, branch_timeout_ms=30000, max_fanout=64, dump_smt=0,
-                 expect_paths=True, nonlinear=False):
+                 expect_paths=True, nonlinear=False, robust=False):
         self.name = name
         self.fn = fn
         self.params = params or {}
@@ -43,6 +43,7 @@ class Config:
         self.dump_smt = dump_smt
         self.expect_paths = expect_paths
         self.nonlinear = nonlinear
+        self.robust = robust
 
 
 def _run_task(task):
@@ -55,7 +56,7 @@ def _run_task(task):
                        prove_timeout_ms=cfg.prove_timeout_ms, max_fanout=cfg.max_fanout,
                        max_paths=cfg.max_paths, split_depth=split_depth, prefix=prefix,
                        witness_every=cfg.witness_every, dump_smt=cfg.dump_smt,
-                       nonlinear=cfg.nonlinear)
+                       nonlinear=cfg.nonlinear, robust=cfg.robust)
     ex.reset_hooks.append(loader.clear_caches)
     ex.reset_hooks.append(symnp._reset_write_log)
     if _CHECK is not None and hasattr(_CHECK, 'reset'):
@@ -334,6 +335,13 @@ def _main2(a, pid, chk, mutations, seed, t0):
             val['agree'] += ev.get('agree', 0)
         except Exception as exc:
             problems.append("extra validation crashed: %r" % (exc,))
+
+    # a counterexample that does not reproduce is an engine problem -- unless the same
+    # obligation's failure was confirmed on the real build by another counterexample
+    confirmed = {c['obligation'] for (c, _) in violations}
+    confirmed |= {json.load(open(pth))['obligation'] for (_, pth) in known_hits.values()}
+    unconfirmed_dupes = [(c, pth) for (c, pth) in mismatches if c['obligation'] in confirmed]
+    mismatches = [(c, pth) for (c, pth) in mismatches if c['obligation'] not in confirmed]
 
     wall = time.time() - t0
     # ---- verdict
